@@ -53,7 +53,8 @@ QUICK_N = 300
 THOROUGH_N = 5000
 SHARD = 60
 DRIVER_TIMEOUT = 900
-RULE = ("85% histories of 3-40 events over 2-7 keys under the prefix (each key bound to one of 1-4 values for the whole "
+RULE = ("histories (30% with 2-4 prefixes subscribed on the same cluster; up to 25% of the changes arrive as batches of 2-8 events in "
+        "one watch response: restarts, put-then-delete, mixed keys) of 3-40 events over 2-7 keys under the prefix (each key bound to one of 1-4 values for the whole "
         "history, values shared between keys) and 0-2 keys outside it: Put/Del each delivered through every open watch "
         "stream or missed (store only), 0-4 reloads (connection loss and recovery seen by the stateWatcher), 1-3 subscribers "
         "(exclusive or not) attaching at random points through Registry.Monitor; every subscriber's real container is fed "
@@ -61,7 +62,8 @@ RULE = ("85% histories of 3-40 events over 2-7 keys under the prefix (each key b
         "sequences (a third of them outside the one-value-per-key proviso). Fixed directed histories first (stale-snapshot "
         "witness, late join, exclusive takeover; after a late join every deletion order of keys sharing values; the same key delivered "
         "2-3 times then one delete; resolver Build with events delivered while its first UpdateState is in progress), plus n/12 "
-        "random resolver cases (rpc/resolver/internal: pre/during/post events around discovBuilder.Build on the scripted etcd, "
+        "random publisher cases (real Publisher + Subscriber on an etcd with leases: start, 1-5 keep-alive losses with or without "
+        "lease expiry, pause/resume, stop; store and subscriber list after every op) and n/12 random resolver cases (rpc/resolver/internal: pre/during/post events around discovBuilder.Build on the scripted etcd, "
         "recording ClientConn.UpdateState). non-trivial = a history with a subscriber, a missed change later repaired "
         "by a reload or subscribe, and a delete; distinct = distinct canonical case JSON")
 TRUSTED = ["scripted etcd (fake EtcdClient in the driver: Get = sorted snapshot of the store under the requested prefix at the "
@@ -73,7 +75,10 @@ ASSUMPTIONS = ["resolver: at most subsetSize = 32 distinct values (subset() trun
                "Build only while its first UpdateState call is in progress (the only point the ClientConn can hold it)",
                "each key carries one value during its life (the quantifier's proviso); histories outside it are only used to "
                "validate the model",
-               "single watched prefix per cluster; Get never fails (load retries forever otherwise)",
+               "several prefixes on one cluster are modelled as one single-prefix cluster per prefix over the same store (the history "
+               "is projected on each prefix; prefixes are not nested); Get never fails (load retries forever otherwise)",
+               "publisher: one publisher per case on a scripted etcd with leases (Grant/Put WithLease/Revoke/expiry); Pause/Resume/"
+               "Stop are issued only in states where the Go call does not block",
                "in exclusive mode 'most recent key' is the most recent OnAdd received by that subscriber: keys learnt from "
                "one snapshot (reload, late join) arrive in Go map-iteration order"]
 
